@@ -353,7 +353,7 @@ def popen_and_run(ctx, sigs):
         if st != code:
             common.report(ctx, 'run/exitstatus', 'run(withexitstatus=True) returned %r for exit code %d' % (st, code), dict(code=code))
     for s in ([9, 15] if ctx.quick() else [1, 2, 3, 6, 9, 13, 15]):
-        p = popen_spawn.PopenSpawn([common.PY, '-c', 'import os,signal; signal.signal(%d, signal.SIG_DFL); os.kill(os.getpid(), %d)' % (s, s)])
+        p = popen_spawn.PopenSpawn([common.PY, '-c', 'import os,signal\ntry: signal.signal(%d, signal.SIG_DFL)\nexcept OSError: pass\nos.kill(os.getpid(), %d)' % (s, s)])
         r = p.wait()
         sigs.add(('popen-wait-signal', s))
         if r != -s or p.exitstatus is not None or p.signalstatus != s:
@@ -380,7 +380,7 @@ def popen_histories(ctx, sigs):
             if plan[0] == 'e':
                 code = 'import sys,time\nsys.stdin.readline()\nsys.exit(%d)' % plan[1]
             else:
-                code = 'import os,sys,signal\nsys.stdin.readline()\nsignal.signal(%d, signal.SIG_DFL)\nos.kill(os.getpid(), %d)' % (plan[1], plan[1])
+                code = 'import os,sys,signal\nsys.stdin.readline()\ntry: signal.signal(%d, signal.SIG_DFL)\nexcept OSError: pass\nos.kill(os.getpid(), %d)' % (plan[1], plan[1])
             p = popen_spawn.PopenSpawn([common.PY, '-c', code])
             fate = plan
             seen = []
